@@ -713,6 +713,7 @@ KeySeq3 == <<"a", "b", "c">>
 KeySeq4 == <<"a", "b", "c", "d">>
 ScoresSim == {-1, 0, 1}
 ScoresPages == {-2, -1, 0, 1, 2}     \* the harness maps -2 / 2 to math.MinInt64 / math.MaxInt64
+ScoresPagesQuick == {-2, 0, 2}
 ReadEpsSmall == {1}
 SinceOffsSmall == {0, 1, 3}
 LimitsSmall == {-1, 0, 1}
